@@ -427,11 +427,33 @@ class Base:
             return struct.pack("d", arg)
         if isinstance(arg, tuple):
             return b"".join(b"<" + Base._arg_serialize(a) + b">" for a in arg)
+        if isinstance(arg, claripy.annotation.Annotation):
+            return Base._annotation_serialize(arg)
         if hasattr(arg, "__hash__"):
             return hash(arg).to_bytes(8, "little", signed=True)
 
         log.debug("Don't know how to serialize %s, consider implementing __hash__", arg)
         return pickle.dumps(arg)
+
+    @staticmethod
+    def _annotation_serialize(anno: Annotation) -> bytes:
+        """Serialize one annotation.
+
+        Python's hash() alone is not enough to tell annotations apart (hash(-1) == hash(-2)), so the class name and
+        the plain-valued fields of the annotation are serialized as well.
+        """
+        try:
+            hashed = hash(anno).to_bytes(8, "little", signed=True)
+        except TypeError:
+            hashed = b""
+        out = type(anno).__qualname__.encode() + b":" + hashed
+        fields = getattr(anno, "__dict__", None)
+        if fields:
+            for name in sorted(fields):
+                value = fields[name]
+                if value is None or isinstance(value, bool | int | float | str | tuple):
+                    out += b"[" + name.encode() + b"=" + Base._arg_serialize(value) + b"]"
+        return out
 
     def __hash__(self) -> int:
         return self._hash
